@@ -111,6 +111,37 @@ pub fn run(out: &mut Out, rng: &mut Rng, thorough: bool) {
 				}
 			}
 		}
+		// A reader that is interrupted once (a transient error, at a few offsets):
+		// the UTF-16 / UTF-32 form may fail where the UTF-8 form fails, or go on;
+		// it must never SUCCEED with anything but what the UTF-8 text gives.
+		if reference.ok() && i % 4 == 0 {
+			for enc in 1..=4u8 {
+				let bytes = encode_text(&text, enc, i % 8 == 0);
+				let mut offsets = vec![0usize, 4, bytes.len() / 2, bytes.len().saturating_sub(1), bytes.len()];
+				offsets.push(rng.below(bytes.len() as u64 + 1) as usize);
+				offsets.dedup();
+				for at in offsets {
+					let mut w = crate::util::FaultWriter::new(None, vec![]);
+					let r = crate::util::catch(|| {
+						let reader = crate::util::InterruptOnce { inner: crate::util::SchedReader::new(&bytes, vec![], true, None), at, fired: false };
+						xt::translate_reader(reader, Some(xt::Format::Yaml), to.xt(), &mut w)
+					});
+					out.eval("interrupted_once_enc", &format!("{enc}{at}{}", hex(&bytes)), true);
+					let bad = match &r {
+						Err(p) => Some(format!("panicked: {p}")),
+						Ok(Ok(())) if w.accepted != reference.output => Some(format!("succeeded with {} although the UTF-8 text gives {}", hex(&w.accepted), hex(&reference.output))),
+						_ => None,
+					};
+					if let Some(b) = bad {
+						out.fail(
+							"translate_enc_eq_utf8",
+							"",
+							format!("YAML text {:?} as {} bytes={} from a reader interrupted once at offset {at}, to {}: {b}", text, ENC_NAMES[enc as usize], hex(&bytes), to.name()),
+						);
+					}
+				}
+			}
+		}
 		if i < 3 {
 			out.sample(format!("e2e yaml text {:?} -> {}", text, to.name()));
 		}
